@@ -14,7 +14,8 @@ import dates as D   # noqa: E402
 from parallel import driver_parallel  # noqa: E402
 
 GEN = ['DateK', 'Calendar', 'DateLogic', 'DayCount']
-PROPS = ['FinVerif.Props.C15', 'FinVerif.Props.C15b', 'FinVerif.Props.C15c', 'FinVerif.Props.C15d']
+PROPS = ['FinVerif.Props.C15', 'FinVerif.Props.C15b', 'FinVerif.Props.C15c', 'FinVerif.Props.C15d',
+         'FinVerif.Props.C15e', 'FinVerif.Props.C15f', 'FinVerif.Props.C15g']
 DRIVERS = ['FinVerif.Driver.C15']
 SPEC_DRIVERS = ['FinVerif.Driver.C15Spec']
 
@@ -142,16 +143,58 @@ def run(ctx):
         impl.append(r)
         valid_call.append(s1 != s2)
 
-    spec = model = None
+    # ICMA over k consecutive coupon periods (hand model `icmaSum`, Model/C15.lean; theorem icma_k_regular_periods):
+    # the implementation's sum of year_frac(p_i, p_{i+1}, p_{i+1}) vs the model's exact sum vs k/f
+    from financepy.utils.frequency import annual_frequency
+    rng_i = ctx.rng('icma')
+    icma_ops, icma_impl, icma_k = [], [], []
+    icma_freqs = [FrequencyTypes.ANNUAL, FrequencyTypes.SEMI_ANNUAL, FrequencyTypes.TRI_ANNUAL,
+                  FrequencyTypes.QUARTERLY, FrequencyTypes.MONTHLY]
+    for t1 in base[: (400 if ctx.quick() else 8000)]:
+        k = rng_i.randint(1, 6)
+        sched = [t1]
+        for _ in range(k):
+            nxt = shift(sched[-1], rng_i.choice([28, 30, 31, 89, 90, 91, 92, 181, 182, 184, 365, 366]))
+            if nxt == sched[-1]:
+                break
+            sched.append(nxt)
+        if len(sched) < 2:
+            continue
+        fr = rng_i.choice(icma_freqs)
+        ds = [Date(*t) for t in sched]
+        tot = 0.0
+        for i in range(len(ds) - 1):
+            tot += dcobj[DayCountTypes.ACT_ACT_ICMA].year_frac(ds[i], ds[i + 1], ds[i + 1], fr)[0]
+        icma_ops.append(f'ICMASUM {fr.value} 0 ' + ' '.join(f'{t[0]} {t[1]} {t[2]}' for t in sched))
+        icma_impl.append(tot)
+        icma_k.append((len(sched) - 1, annual_frequency(fr)))
+
+    spec = model = icma_model = None
     try:
         spec = [parse_triple(x) for x in driver_parallel('C15Spec', ops)]
     except C.DriverError as e:
         ctx.broke('spec driver failed: ' + str(e)[:300])
     if drivers_ok:
         try:
-            model = [parse_triple(x) for x in driver_parallel('C15', ops)]
+            raw = driver_parallel('C15', ops + icma_ops)
+            model = [parse_triple(x) for x in raw[:len(ops)]]
+            icma_model = [Fraction(x) for x in raw[len(ops):]]
         except C.DriverError as e:
             ctx.broke('model driver failed: ' + str(e)[:300])
+    nb_i = 0
+    for i, op in enumerate(icma_ops):
+        k, fq = icma_k[i]
+        want = k / fq
+        if abs(icma_impl[i] - want) > 4e-15 * max(1.0, abs(want)):
+            ctx.violation('k consecutive full coupon periods under ACT/ACT ICMA do not sum to k/frequency',
+                          {'op': op, 'implementation': icma_impl[i], 'k': k, 'freq': fq}, clause='icma-regular')
+        elif icma_model is not None and abs(float(icma_model[i]) - icma_impl[i]) > 4e-15 * max(1.0, abs(want)):
+            nb_i += 1
+            if nb_i <= 3:
+                ctx.broke(f'correspondence icmaSum: model≠implementation on `{op}` (model {icma_model[i]}, '
+                          f'impl {icma_impl[i]})')
+    ctx.count('icma k-period sums', len(icma_ops), len(icma_ops),
+              sample={'op': icma_ops[0], 'impl': icma_impl[0]} if icma_ops else None)
     nb_s = nb_m = 0
     kinds = {}
     for i, op in enumerate(ops):
@@ -222,6 +265,105 @@ def run(ctx):
                 ctx.violation('a full coupon period under ACT/ACT ICMA is not 1/frequency',
                               {'a': t1, 'b': (b.d, b.m, b.y), 'freq': fr.name, 'value': v}, clause='icma-regular')
     ctx.count('laws(additive, zero, icma-regular)', nlaw)
+
+    # ------------------------------------------------ laws proved in Props/C15e-g, run directly on the implementation
+    T = DayCountTypes
+    fam = (T.THIRTY_360_BOND, T.THIRTY_E_360, T.THIRTY_E_360_ISDA, T.THIRTY_E_PLUS_360)
+    rng_l = ctx.rng('laws2')
+    nlaw2 = 0
+
+    def num(dcc, x, y, term=False):
+        return dcobj[dcc].year_frac(x, y, None, FrequencyTypes.ANNUAL, term)[1]
+
+    def lastfeb(t):
+        return t[1] == 2 and t[0] == (29 if (t[2] % 4 == 0 and (t[2] % 100 != 0 or t[2] % 400 == 0)) else 28)
+
+    def bad(what, case, clause):
+        ctx.violation(what, case, clause=clause)
+
+    for t1 in base[: (1500 if ctx.quick() else 30000)]:
+        if t1[2] < 1901:
+            continue
+        ta = t1
+        tb = shift(ta, rng_l.choice([1, 2, 29, 30, 31, 59, 61, rng_l.randint(1, 4000)]))
+        tc = shift(tb, rng_l.choice([1, 2, 29, 30, 31, 59, 61, rng_l.randint(1, 4000)]))
+        if rng_l.random() < 0.4:
+            # steer the middle / last date to a 31st or a February end, where the conventions differ
+            m31 = rng_l.choice([1, 3, 5, 7, 8, 10, 12])
+            tb = (31, m31, tb[2]) if rng_l.random() < 0.6 else (28, 2, tb[2])
+            if rng_l.random() < 0.5:
+                tc = (31, rng_l.choice([1, 3, 5, 7, 8, 10, 12]), tc[2])
+        a, b, c = Date(*ta), Date(*tb), Date(*tc)
+        case = {'a': ta, 'b': tb, 'c': tc}
+        # additivity in the 30/360 family (exact integers): thirty_E_360_additive, isda_additive,
+        # thirty_E_plus_360_additivity_defect, bond_additivity_defect
+        nlaw2 += 5
+        if num(T.THIRTY_E_360, a, b) + num(T.THIRTY_E_360, b, c) != num(T.THIRTY_E_360, a, c):
+            bad('30E/360 numerator is not additive over adjacent periods', case, 'additive-30E')
+        for t in (False, True):
+            if num(T.THIRTY_E_360_ISDA, a, b, False) + num(T.THIRTY_E_360_ISDA, b, c, t) != num(T.THIRTY_E_360_ISDA, a, c, t):
+                bad('30E/360 ISDA numerator is not additive with the termination flag on the last period only',
+                    dict(case, term=t), 'additive-30E-ISDA')
+        if num(fam[3], a, b) + num(fam[3], b, c) != num(fam[3], a, c) + (1 if tb[0] == 31 else 0):
+            bad('30E+/360 additivity defect is not [middle date is a 31st]', case, 'additive-30E+')
+        dfct = (1 if (tb[0] == 31 and ta[0] < 30) else 0) + \
+            (((1 if ta[0] >= 30 else 0) - (1 if tb[0] >= 30 else 0)) if tc[0] == 31 else 0)
+        if num(fam[0], a, b) + num(fam[0], b, c) != num(fam[0], a, c) + dfct:
+            bad('30/360 Bond additivity defect differs from the proved formula', case, 'additive-bond')
+        # the termination flag: isda_flag_effect
+        nlaw2 += 1
+        eff = num(fam[2], a, b, True) - num(fam[2], a, b, False)
+        if eff != ((tb[0] - 30) if lastfeb(tb) else 0):
+            bad('30E/360 ISDA: effect of the termination flag is not (d2 - 30 on the last day of February, else 0)',
+                dict(case, effect=eff), 'isda-termination')
+        # sign and its corners: thirty360_sign_of_serial_lt / _gt
+        prs = [(ta, tb)]
+        m31 = rng_l.choice([1, 3, 5, 7, 8, 10, 12])
+        yy = ta[2]
+        nm = (1, m31 + 1, yy) if m31 < 12 else (1, 1, yy + 1)
+        prs += [((30, m31, yy), (31, m31, yy)), ((29, m31, yy), (31, m31, yy)), ((31, m31, yy), nm)]
+        for (p, q) in prs:
+            kp, kq = (p[2], p[1], p[0]), (q[2], q[1], q[0])
+            if kp == kq:
+                continue
+            if kp > kq:
+                p, q = q, p
+            dp, dq = Date(*p), Date(*q)
+            same_month = p[1] == q[1] and p[2] == q[2]
+            for dcc in fam:
+                for t in (False, True):
+                    nlaw2 += 2
+                    nf, nr = num(dcc, dp, dq, t), num(dcc, dq, dp, t)
+                    zf = dcc != fam[3] and same_month and p[0] == 30 and q[0] == 31
+                    zr = (same_month and q[0] == 31 and p[0] == 30) or \
+                        (dcc in (fam[0], fam[3]) and 12 * q[2] + q[1] == 12 * p[2] + p[1] + 1 and q[0] == 1 and p[0] == 31)
+                    if nf < 0 or (nf == 0) != zf:
+                        bad('30/360 fraction of a positive period: sign/corner differs from the proved characterisation',
+                            {'dcc': dcc.name, 'start': p, 'end': q, 'term': t, 'num': nf}, 'sign-30-360')
+                    if nr > 0 or (nr == 0) != zr:
+                        bad('30/360 fraction of a reversed period: sign/corner differs from the proved characterisation',
+                            {'dcc': dcc.name, 'start': q, 'end': p, 'term': t, 'num': nr}, 'sign-30-360')
+        # ACT/ACT ISDA: additive, antisymmetric, between days/366 and days/365 (dates from 1901)
+        if (ta[2], ta[1], ta[0]) < (tb[2], tb[1], tb[0]) <= (tc[2], tc[1], tc[0]):
+            dc = dcobj[T.ACT_ACT_ISDA]
+            x, y, z = dc.year_frac(a, b)[0], dc.year_frac(b, c)[0], dc.year_frac(a, c)[0]
+            nlaw2 += 3
+            if abs(x + y - z) > 1e-12 * max(1.0, abs(z)):
+                bad('ACT/ACT ISDA is not additive over adjacent periods', dict(case, ab=x, bc=y, ac=z), 'additive-actact')
+            if abs(dc.year_frac(b, a)[0] + x) > 1e-12 * max(1.0, abs(x)):
+                bad('ACT/ACT ISDA is not antisymmetric', dict(case, ab=x), 'sign-actact')
+            days = b - a
+            if not (days / 366.0 - 1e-12 <= x <= days / 365.0 + 1e-12):
+                bad('ACT/ACT ISDA is outside [days/366, days/365]', dict(case, ab=x, days=days), 'bounds-actact')
+        # identities: simple_eq_act_365F, act_360_eq_act_365F_scaled
+        nlaw2 += 2
+        r7, r10, r8 = dcobj[T.ACT_365F].year_frac(a, c), dcobj[T.SIMPLE].year_frac(a, c), dcobj[T.ACT_360].year_frac(a, c)
+        if tuple(r7) != tuple(r10):
+            bad('SIMPLE and ACT/365F differ', dict(case, act365f=str(r7), simple=str(r10)), 'identities')
+        if r8[1] != r7[1] or abs(r8[0] - r7[0] * 365.0 / 360.0) > 4e-16 * max(1.0, abs(r8[0])):
+            bad('ACT/360 is not ACT/365F x 365/360', dict(case, act365f=str(r7), act360=str(r8)), 'identities')
+    ctx.count('laws(30/360 sign corners, family additivity, termination flag, ACT/ACT ISDA additive/bounds, identities)',
+              nlaw2)
 
     # ------------------------------------------------ times_from_dates: the vector helper is year_frac element by element
     from financepy.utils.helpers import times_from_dates
